@@ -22,7 +22,8 @@ func init() {
 		Stubbed: []string{"transport: SimConn", "peer: scripted", "handlers and caller tasks: harness code released by the engine", "scheduling inside the library's reaction to an event: verifYield hook sites"},
 		Assume:  []string{"terminated = the library closed the transport, or a Read returned the end condition (EOF / error) to the library", "preemption is explored at transport seams, handler boundaries and the five yield sites"},
 		Scenarios: []*Scenario{
-			{Name: "events", Weight: 1, Bubble: true, Run: func(e *Env) { c14Run(e, nil) }},
+			{Name: "events", Weight: 5, Bubble: true, Run: func(e *Env) { c14Run(e, nil) }},
+			{Name: "watchdog-client", Weight: 1, Bubble: true, Run: func(e *Env) { c13Client(e, true) }},
 			{Name: "sweep-events", Bubble: true, Run: c14Sweep, SweepN: c14SweepN, Exhaustive: true,
 				SweepNote: "all sequences of length <= 6 over the 7 event kinds {deliver-message, deliver-byte, cn-handler(next message), cn-task, terminate(kind by case), release-one, unyield-one} x 4 termination kinds, on a 3-message workload with yield sites enabled"},
 		},
